@@ -295,13 +295,19 @@ func parseFinalizeErr(err error) map[string]interface{} {
 // ---------------------------------------------------------------------------------------------
 // CPU execution of emitted code (C07) and single-instruction decode (C03)
 
+// memory for executing emitted code: the program's bank holds the code (write-protected); every other
+// address reads a bank-dependent pseudo-random fill unless written (so a byte fetched from the wrong bank
+// is not accidentally the right one)
 type progMem struct {
-	data    []byte // 64 KiB bank image, mirrored in every bank
+	data    []byte // the 64 KiB of the program bank
+	other   map[uint32]byte
 	base    uint32
 	n       int
 	fetches []int
 	first   bool
 }
+
+func progFill(a uint32) byte { return byte(a*29 + (a>>8)*13 + (a>>16)*101 + 7) }
 
 func (m *progMem) Read(a uint32) byte {
 	if m.first {
@@ -311,15 +317,28 @@ func (m *progMem) Read(a uint32) byte {
 		}
 		m.first = false
 	}
-	return m.data[a&0xFFFF]
+	if a>>16 == m.base>>16 {
+		return m.data[a&0xFFFF]
+	}
+	if v, ok := m.other[a]; ok {
+		return v
+	}
+	return progFill(a)
 }
 func (m *progMem) Write(a uint32, v byte) {
-	off := a & 0xFFFF
-	lo := m.base & 0xFFFF
-	if off >= lo && off < lo+uint32(m.n) {
-		return // program bytes are write-protected
+	if a>>16 == m.base>>16 {
+		off := a & 0xFFFF
+		lo := m.base & 0xFFFF
+		if off >= lo && off < lo+uint32(m.n) {
+			return // program bytes are write-protected
+		}
+		m.data[off] = v
+		return
 	}
-	m.data[off] = v
+	if m.other == nil {
+		m.other = map[uint32]byte{}
+	}
+	m.other[a] = v
 }
 func (m *progMem) Shutdown()          {}
 func (m *progMem) Size() uint32       { return 1 << 24 }
